@@ -1,7 +1,7 @@
 (* Property C04 - only statements, each closed by [exact]. *)
 From Coq Require Import NArith ZArith List Bool Arith.
 Import ListNotations.
-Require Import UV.C04.Model UV.C04.Proofs UV.C04.ProofsLazy UV.C04.ProofsLive UV.C04.Compose.
+Require Import UV.C04.Model UV.C04.Proofs UV.C04.ProofsLazy UV.C04.ProofsLive UV.C04.Compose UV.C04.ProofsDecode.
 
 (* One thread stores the records `recs` (store by store, switching / re-using / growing / shrinking
    its ring of buffers); the recorder's main thread and writer run interleaved in any order
@@ -9,26 +9,36 @@ Require Import UV.C04.Model UV.C04.Proofs UV.C04.ProofsLazy UV.C04.ProofsLive UV
    the pipe, runs flush_shmem_list and record_remaining_buffer.  The data file then consists of
    whole records: exactly those completely stored, in order; followed only by the bare header of
    the record in flight when the kill fell between its two size updates (`extra`). *)
-Theorem C04_prefix_general : forall cap recs sched,
-  let s := run cap sched (init recs) in
-  exists bs rest, Matches (done s) bs /\ file (finish s) = bs ++ extra s /\ recs = done s ++ rest.
+Theorem C04_prefix_general : forall single cap recs sched,
+  let s := run single cap sched (init recs) in
+  exists bs rest, Matches (done s) bs /\ file (finish s) = bs ++ extra single s /\ recs = done s ++ rest.
 Proof. exact prefix_general. Qed.
 Print Assumptions C04_prefix_general.
 
-(* the property, under the exact guard: not between bump16 and bump_payload of a record with payload *)
-Theorem C04_prefix : forall cap recs sched,
-  let s := run cap sched (init recs) in
-  in_window s = false ->
+(* the property, under the exact guard: not between bump16 and bump_payload of a record with payload
+   (`single = false`: the code as found; `single = true`: one size update per record, proposed-fixes/C04-1.diff) *)
+Theorem C04_prefix : forall single cap recs sched,
+  let s := run single cap sched (init recs) in
+  in_window single s = false ->
   match_recs (done s) (file (finish s)) = true
   /\ (exists rest, recs = done s ++ rest)
   /\ ok_prefix recs (file (finish s)) = true.
 Proof. exact prefix_outside_window. Qed.
 Print Assumptions C04_prefix.
 
+(* the repaired code needs no guard *)
+Theorem C04_prefix_fixed : forall cap recs sched,
+  let s := run true cap sched (init recs) in
+  match_recs (done s) (file (finish s)) = true
+  /\ (exists rest, recs = done s ++ rest)
+  /\ ok_prefix recs (file (finish s)) = true.
+Proof. exact prefix_fixed. Qed.
+Print Assumptions C04_prefix_fixed.
+
 (* inside the window the file ends with a header whose payload is missing ... *)
 Theorem C04_window_exact : forall cap recs sched,
-  let s := run cap sched (init recs) in
-  in_window s = true ->
+  let s := run false cap sched (init recs) in
+  in_window false s = true ->
   exists r bs rest, (pc s = PCopy r \/ pc s = PBumpPl r) /\
     Matches (done s) bs /\ file (finish s) = bs ++ hdr r /\ recs = done s ++ r :: rest.
 Proof. exact window_exact. Qed.
@@ -36,15 +46,15 @@ Print Assumptions C04_window_exact.
 
 (* ... and that is not a sequence of whole records: the unguarded statement is false of the code *)
 Theorem C04_header_without_payload_refuted :
-  in_window (run 4080 w_sched (init w_recs)) = true
-  /\ ok_prefix w_recs (file (finish (run 4080 w_sched (init w_recs)))) = false
-  /\ file (finish (run 4080 w_sched (init w_recs))) = hdr w_r1.
+  in_window false (run false 4080 w_sched (init w_recs)) = true
+  /\ ok_prefix w_recs (file (finish (run false 4080 w_sched (init w_recs)))) = false
+  /\ file (finish (run false 4080 w_sched (init w_recs))) = hdr w_r1.
 Proof. exact window_witness. Qed.
 Print Assumptions C04_header_without_payload_refuted.
 
 (* every record stored: nothing is missing *)
-Theorem C04_complete_run : forall cap recs sched,
-  let s := run cap sched (init recs) in
+Theorem C04_complete_run : forall single cap recs sched,
+  let s := run single cap sched (init recs) in
   pc s = PIdle -> todo s = [] -> match_recs recs (file (finish s)) = true.
 Proof. exact complete_run. Qed.
 Print Assumptions C04_complete_run.
@@ -53,6 +63,14 @@ Print Assumptions C04_complete_run.
 Theorem C04_checker_sound : forall rs bs, Matches rs bs -> match_recs rs bs = true.
 Proof. exact Matches_match_recs. Qed.
 Print Assumptions C04_checker_sound.
+
+(* the decoder that judges real <tid>.dat files end to end (bytes -> words -> bit fields) inverts the
+   model's encoder (partial C04_reader_accepts: records without payload; the payload layout is C12's) *)
+Theorem C04_decoder_inverts_encoder_partial : forall rs,
+  Forall (fun r => fields_ok r /\ r_pl r = []) rs ->
+  dec_bytes (concat (map hdr rs)) = Some (map drec_of rs).
+Proof. exact decode_inverts_encode. Qed.
+Print Assumptions C04_decoder_inverts_encoder_partial.
 
 (* record_trace_data writes ENTRY records lazily; what is written at any time plus what the crash
    handler (segv_handler, also the exit/exec-like PLT flush) adds is the eager trace *)
@@ -71,19 +89,19 @@ Proof. exact segv_includes_open_calls. Qed.
 Print Assumptions C04_segv_includes_open_calls.
 
 (* hook calls -> records -> stores -> kill anywhere -> recorder: whole records, prefix of the execution *)
-Theorem C04_killed_trace_is_prefix_of_execution : forall cap ops sched,
+Theorem C04_killed_trace_is_prefix_of_execution : forall single cap ops sched,
   wf_ops [] ops = true ->
   let recs := concat (snd (ops_run [] ops)) in
-  let s := run cap sched (init recs) in
-  in_window s = false ->
+  let s := run single cap sched (init recs) in
+  in_window single s = false ->
   exists k, match_recs (firstn k (eager [] ops)) (file (finish s)) = true.
 Proof. exact killed_trace_is_prefix_of_execution. Qed.
 Print Assumptions C04_killed_trace_is_prefix_of_execution.
 
-Theorem C04_crashed_trace_is_complete : forall cap ops sched,
+Theorem C04_crashed_trace_is_complete : forall single cap ops sched,
   wf_ops [] ops = true ->
   let recs := concat (snd (ops_run [] ops)) ++ segv_flush (fst (ops_run [] ops)) in
-  let s := run cap sched (init recs) in
+  let s := run single cap sched (init recs) in
   pc s = PIdle -> todo s = [] ->
   match_recs (eager [] ops) (file (finish s)) = true.
 Proof. exact crashed_trace_is_complete. Qed.
